@@ -843,6 +843,9 @@ func (e *Enc) merge(edges []edgeState, label string) *State {
 		if cks[i].Parent() != cks[j].Parent() {
 			return cks[i].Parent().String() < cks[j].Parent().String()
 		}
+		if cks[i].Pos() != cks[j].Pos() {
+			return cks[i].Pos() < cks[j].Pos()
+		}
 		return cks[i].Name() < cks[j].Name()
 	})
 	for _, k := range cks {
@@ -919,7 +922,7 @@ func (e *Enc) merge(edges []edgeState, label string) *State {
 			itKeys[k] = true
 		}
 	}
-	for k := range itKeys {
+	for _, k := range sortedValues(itKeys) {
 		var vals []Val
 		all := true
 		for _, ed := range edges {
@@ -940,7 +943,7 @@ func (e *Enc) merge(edges []edgeState, label string) *State {
 			itN[k] = true
 		}
 	}
-	for k := range itN {
+	for _, k := range sortedValues(itN) {
 		var vals []Val
 		all := true
 		for _, ed := range edges {
